@@ -16,13 +16,14 @@ CONSTANTS TypeNames, DefSets, UseSeqs, Perts, Ptrs
 UseEntries == {<<"ty", "a">>, <<"ty", "b">>, <<"ty", "n">>, <<"mod", "a">>, <<"mod", "b">>, <<"mod", "n">>}
 NoRepeat(sq) == \A i, j \in DOMAIN sq : i # j => sq[i] # sq[j]
 UseSeqsUpTo(k) == UNION {{sq \in [1..n -> UseEntries] : NoRepeat(sq)} : n \in 0..k}
-QUseSeqs == UseSeqsUpTo(2)
+(* "gen": an import of another instantiation, `use b::X<Q>`, of which module b declares an extern type: it is not an *)
+(* import of `X` (names are compared whole, generic arguments included)                                            *)
+GenUseSeqs == {<< <<"gen", "b">> >>, << <<"gen", "b">>, <<"mod", "b">> >>, << <<"ty", "a">>, <<"gen", "b">> >>, << <<"gen", "b">>, <<"ty", "a">> >>,
+               << <<"mod", "a">>, <<"gen", "b">> >>}
+QUseSeqs == UseSeqsUpTo(2) \cup GenUseSeqs
 TUseSeqs == UseSeqsUpTo(3)
 (* repeated imports: the last occurrence of a type import decides *)
 Q2UseSeqs == [1..3 -> {<<"ty", "a">>, <<"ty", "b">>, <<"mod", "a">>}]
-             (* "gen": an import of another instantiation, `use b::X<Q>`: it names nothing that exists and, above all, *)
-             (* it is not an import of `X` (names are compared whole, generic arguments included)                      *)
-             \cup {<< <<"gen", "b">> >>, << <<"gen", "b">>, <<"mod", "b">> >>, << <<"ty", "a">>, <<"gen", "b">> >>, << <<"gen", "a">>, <<"ty", "b">> >>}
 NoPerts == {"none"}
 OrderPerts == {"none", "mmid", "mlast"}
 AllDefSets == SUBSET {"m", "a", "b", "n"}
@@ -84,7 +85,9 @@ MkInput(ptr, name, defs, uses, pert, en) ==
                                   \o (IF pert = "shadowmod"
                                       THEN <<TypeDef("n", "pub", IF "a" \in defs THEN <<Field("q", "pub", <<>>, TNm(name), None, FALSE)>> ELSE <<>>)>>
                                       ELSE <<>>))
-      mb == Module(<<"b">>, <<>>, own("b") \o <<W(4)>> \o extraB)
+      hasGen == \E i \in DOMAIN uses : uses[i][1] = "gen"
+      mb == [Module(<<"b">>, <<>>, own("b") \o <<W(4)>> \o extraB)
+               EXCEPT !.exts = IF hasGen THEN <<ExtType(name \o "<Q>", 16, 1)>> ELSE <<>>]
       mn == Module(<<"a", "n">>, <<<<"b">>>>, own("n") \o <<RN>>)
       mz == Module(<<"zz">>, <<<<"a">>>>, <<DefOf(name, "b"), Unrelated, ZP, ZDia>>)
       mraw == Module(<<"r#m">>, <<>>, <<Unrelated>>)
